@@ -144,8 +144,17 @@ def _merge_conditional_assignments(body):
                             def visit_Name(self, n_):
                                 return _copy.deepcopy(prev.value) if n_.id == x and isinstance(n_.ctx, ast.Load) else n_
                         test = _S().visit(_copy.deepcopy(test))
+                    new_val = a.value
+                    if x in {n.id for n in ast.walk(new_val) if isinstance(n, ast.Name)}:
+                        # the new value reads the value just assigned as well: `x = D; if c(x): x = f(x)`  ->  `x = f(D) if c(D) else D`
+                        import copy as _copy2
+
+                        class _S2(ast.NodeTransformer):
+                            def visit_Name(self, n_):
+                                return _copy2.deepcopy(prev.value) if n_.id == x and isinstance(n_.ctx, ast.Load) else n_
+                        new_val = _S2().visit(_copy2.deepcopy(new_val))
                     out[-1] = ast.copy_location(ast.Assign(targets=[ast.Name(id=x, ctx=ast.Store())],
-                                                           value=_canon_ifexp(ast.copy_location(ast.IfExp(test=test, body=a.value, orelse=prev.value), st))), prev)
+                                                           value=_canon_ifexp(ast.copy_location(ast.IfExp(test=test, body=new_val, orelse=prev.value), st))), prev)
                     continue
         out.append(st)
     return out
